@@ -182,6 +182,17 @@ class Pipeline:
                     code, entry, _ = link.link(o["funcs"], addr)
                     if vt is None:
                         vt = vocab.vt_for(addr, c.get("fnames", ()), extra=c.get("extra_decl"))
+                        # cells the source semantics does not name (locals, parameters of functions outside the vocabulary):
+                        # they need memory, are never observed; sizes come from the layout
+                        for v in o["vars"]:
+                            n = v["name"]
+                            if n in vt or n not in addr or v["def"] is not None or v["mem"] == "Dummy":
+                                continue
+                            t = v["type"]
+                            if v["size"] > 1:
+                                vt[n] = dict(kind="a", w=8 if t == "CharPtr" else 16, sg=False, n=v["size"], addr=addr[n], io=False, hidden=True)
+                            else:
+                                vt[n] = dict(kind="p" if t in ("CharPtr", "CharPtrPtr", "ShortPtr") else "s", w=16 if t == "Short" else 8, sg=False, n=1, addr=addr[n], io=False, hidden=True)
                         regions = regs
                         base_addr = addr
                     else:
@@ -209,7 +220,7 @@ class Pipeline:
                 if vocab.DECL.get(n, {}).get("rom"):
                     d["rom"] = True
             inputs = make_inputs(c, vt, rnd, maxin, small=c["fam"] in small_fams or c.get("small", False))
-            obsn = c.get("obs") or [n for n in vt if n not in ("X", "Y") and (n in vocab.DECL or n in c.get("obs_extra", ())) and not vt[n].get("rom")]
+            obsn = c.get("obs") or [n for n in vt if n not in ("X", "Y") and (n in vocab.DECL or n in c.get("obs_extra", ())) and not vt[n].get("rom") and not vt[n].get("hidden")]
             maxlen = max(len(v["code"]) for v in uniq)
             tcases.append(dict(id=c["id"], vt=vt, fs=vocab.fs_for(c.get("fnames", ())), body=c.get("body", []), fuel=fuel, obs=obsn,
                                regions=regions, variants=uniq, tmp=link.TMP_ADDR, prefix=bool(c.get("prefix", False)), sem=bool(sem and c.get("body") is not None),
@@ -221,18 +232,20 @@ class Pipeline:
         d = common.workdir("ref_" + self.name)
         semcases = [t for t in tcases if t["sem"]]
         if semcases:
-            f1 = os.path.join(d, "src_cases.ndjson")
-            with open(f1, "w") as f:
-                for t in semcases:
-                    f.write(json.dumps(dict(id=t["id"], vt=t["vt"], fs=t["fs"], body=t["body"], fuel=t["fuel"], obs=t["obs"],
-                                            inputs=[i["inp"] for i in t["inputs"]])) + "\n")
             exp = {}
 
             def on_src(tag, o):
                 exp[(o["id"], o["k"])] = o
-            res = common.run_tlc("SrcEval", env={"CASES": f1}, name="src_" + self.name, tags={"SRC"}, on_line=on_src, timeout=timeout)
-            common.require_ok(res, "SrcEval")
-            log("%s: SrcEval %d (case,input) pairs in %.1fs" % (self.name, len(exp), res.wall))
+            for ci, chunk in enumerate(_chunks(semcases, 60000)):
+                f1 = os.path.join(d, "src_cases_%d.ndjson" % ci)
+                with open(f1, "w") as f:
+                    for t in chunk:
+                        f.write(json.dumps(dict(id=t["id"], vt=t["vt"], fs=t["fs"], body=t["body"], fuel=t["fuel"], obs=t["obs"],
+                                                inputs=[i["inp"] for i in t["inputs"]])) + "\n")
+                res = common.run_tlc("SrcEval", env={"CASES": f1}, name="src_" + self.name, tags={"SRC"}, on_line=on_src, timeout=timeout)
+                common.require_ok(res, "SrcEval")
+                os.remove(f1)
+            log("%s: SrcEval %d (case,input) pairs" % (self.name, len(exp)))
             for t in semcases:
                 keep = []
                 for k, i in enumerate(t["inputs"], start=1):
@@ -256,23 +269,39 @@ class Pipeline:
         self.tcases = {t["id"]: t for t in tcases}
         if not tcases:
             return
-        f2 = os.path.join(d, "cases.ndjson")
-        with open(f2, "w") as f:
-            for t in tcases:
-                f.write(json.dumps({k: v for k, v in t.items() if not k.startswith("_")}) + "\n")
-
         def on_mm(tag, o):
             if tag == "MM":
                 self.mismatches.append(o)
             elif tag == "CUT":
                 st["cut"] += 1
-        res = common.run_tlc("Refine", env={"CASES": f2}, name="ref_" + self.name, tags={"MM", "CUT"}, on_line=on_mm, timeout=timeout)
-        common.require_ok(res, "Refine")
+        wall = 0.0
+        for ci, chunk in enumerate(_chunks(tcases, 50000)):
+            f2 = os.path.join(d, "cases_%d.ndjson" % ci)
+            with open(f2, "w") as f:
+                for t in chunk:
+                    f.write(json.dumps({k: v for k, v in t.items() if not k.startswith("_")}) + "\n")
+            res = common.run_tlc("Refine", env={"CASES": f2}, name="ref_" + self.name, tags={"MM", "CUT"}, on_line=on_mm, timeout=timeout)
+            common.require_ok(res, "Refine")
+            os.remove(f2)
+            st["states"] += res.distinct
+            st["transitions"] += res.generated
+            wall += res.wall
         st["behaviours"] += sum(len(t["inputs"]) * 2 * ((len(t["variants"]) if t["sem"] else 0) + (len(t["variants"]) - 1 if t["pair"] else 0)) for t in tcases)
-        st["states"] += res.distinct
-        st["transitions"] += res.generated
-        log("%s: Refine %d behaviours, %d states, %d mismatching behaviours, %.1fs" % (self.name, res.init_states, res.distinct, len(self.mismatches), res.wall))
+        log("%s: Refine %d behaviours, %d states, %d mismatching behaviours, %.1fs" % (self.name, st["behaviours"], st["states"], len(self.mismatches), wall))
 
+
+def _chunks(tcases, max_pairs):
+    """split into groups whose total number of (case, input, variant) triples stays below max_pairs (TLC heap)"""
+    cur, n = [], 0
+    for t in tcases:
+        w = len(t["inputs"]) * max(1, len(t.get("variants", [1])))
+        if cur and n + w > max_pairs:
+            yield cur
+            cur, n = [], 0
+        cur.append(t)
+        n += w
+    if cur:
+        yield cur
 
 def run_tcases(name, tcases, timeout=1500):
     """Run Refine.tla on ready-made cases (used by checks that do not go through compile()).
